@@ -288,6 +288,16 @@ func runCase(c *core.Case) {
 		reqPath = append(reqPath, sub...)
 		c.Count("paths_of_250_to_300_items", 1)
 	}
+	if r.Chance(1, 6) {
+		// the same session asked for this file a moment ago in another way (resumed from some offset, or as a
+		// preview) and never collected that transfer: the request judged below is a new one and must be served as asked
+		ek, eprev := -1, r.Bool()
+		if !eprev {
+			ek = r.Intn(size + 1)
+		}
+		xfer.RequestDownloadEnc(cl, name, reqPath, ek, eprev, false)
+		c.Count("requests_preceded_by_an_uncollected_request_for_the_same_file", 1)
+	}
 	d := xfer.RequestDownloadEnc(cl, name, reqPath, k, mode == "preview", widePreview)
 	if !d.OK {
 		c.Fail("C08/request-refused", "download request for an existing file refused: %v", d.Reply)
